@@ -28,6 +28,11 @@ SRC = ["SimpleSource", "IslandSource", "ComponentSource"]
 
 
 MUTANTS = [
+    ("csv / tab read with the fast float converter", "AegeanTools/catalogs.py",
+     "        t = ascii.read(filename)",
+     "        t = ascii.read(filename,\n"
+     "                       fast_reader={'use_fast_converter': True})",
+     "C18-R11"),
     ("column dtype taken from the first row", "AegeanTools/catalogs.py",
      "            tab_dict[col_name] = [getattr(c, name, None) for c in catalog]",
      "            vals = [getattr(c, name, None) for c in catalog]\n"
@@ -274,6 +279,7 @@ def run(ctx):
     ctx.floor("C18-R2", n2, 4, "consumers of classify_catalog")
     r9_independent(ctx, prog, cats)
     r10_column_types(ctx, prog, cats)
+    r11_exact_parsing(ctx, prog, cats)
     # ---------------------------------------------------------------- R3
     ctx.rule("C18-R3", "names ⊆ attributes assigned by the __init__ chain; "
              "as_list and the writer iterate `names`")
@@ -842,3 +848,38 @@ def r10_column_types(ctx, prog, cats):
                    norm(bad[0][1]) if bad else ""),
                   node=bad[0][0] if bad else fi.node)
     ctx.floor("C18-R10", n, 1, "table-building functions of write_catalog")
+
+
+def r11_exact_parsing(ctx, prog, cats):
+    """text catalogues are parsed with the exact float converter"""
+    ctx.rule("C18-R11", "numeric columns of csv / tab / tex catalogues come "
+             "back to full double precision: the astropy readers are called "
+             "without `use_fast_converter` (documented by astropy as a "
+             "faster but slightly imprecise float parser: about one value "
+             "in six is off by 1 ULP) and without a narrowing converter / "
+             "dtype")
+    n = 0
+    for q, fi in prog.functions.items():
+        if fi.module != cats.name:
+            continue
+        for c in walk_no_nested(fi.node):
+            if not (isinstance(c, ast.Call) and
+                    norm(c.func).split(".")[-1] == "read"):
+                continue
+            n += 1
+            bad = []
+            for k in c.keywords:
+                if k.arg == "fast_reader" and isinstance(k.value, ast.Dict):
+                    for kk, vv in zip(k.value.keys, k.value.values):
+                        if isinstance(kk, ast.Constant) and \
+                                kk.value == "use_fast_converter" and not (
+                                    isinstance(vv, ast.Constant) and
+                                    vv.value in (False, None, 0)):
+                            bad.append("use_fast_converter")
+                if k.arg in ("converters", "dtype"):
+                    bad.append(k.arg)
+            ctx.check("C18-R11", fi, "exact parsing in " + norm(c, 60),
+                      not bad, "the reader is called with %s: floats that "
+                      "need 16-17 significant digits do not come back "
+                      "bit-identical" % bad, node=c)
+    ctx.floor("C18-R11", n, 2, "table reader calls in catalogs.py")
